@@ -45,8 +45,9 @@ func genNet(r *hlib.Rng) uint32 { return hlib.Pick(r, uint32(0), 1, 2, 0xfffffff
 
 // hist hands out consecutive deposit counts
 type hist struct {
-	r  *hlib.Rng
-	dc uint32
+	r          *hlib.Rng
+	dc         uint32
+	claimRoots [][2]string // (mainnet exit root, rollup exit root) of the claims generated so far
 }
 
 func (h *hist) bridge() Ev {
@@ -72,8 +73,16 @@ func (h *hist) claim() Ev {
 	default: // rollup
 		gi = new(big.Int).SetUint64(uint64(hlib.Pick(r, uint32(0), 1, 2, r.U32()))<<32 | uint64(r.U32()))
 	}
-	return Ev{T: "c", GI: gi.String(), IsMsg: r.Bool(), ONet: genNet(r), OAddr: genAddr(r), DNet: genNet(r), DAddr: genAddr(r),
+	e := Ev{T: "c", GI: gi.String(), IsMsg: r.Bool(), ONet: genNet(r), OAddr: genAddr(r), DNet: genNet(r), DAddr: genAddr(r),
 		Amount: genAmount(r), Meta: genMeta(r), MER: hlib.Hex(r.Bytes(32)), RER: hlib.Hex(r.Bytes(32))}
+	// every third claim is made against the global exit root of the claim two claims back (A, B, A: several claims against one
+	// root, interleaved with another root, as users do); no random draw is added, so the histories are otherwise the earlier ones
+	h.claimRoots = append(h.claimRoots, [2]string{e.MER, e.RER})
+	if n := len(h.claimRoots); n%3 == 0 {
+		e.MER, e.RER = h.claimRoots[n-3][0], h.claimRoots[n-3][1]
+		h.claimRoots[n-1] = h.claimRoots[n-3]
+	}
+	return e
 }
 
 // block with nb bridges and nc claims in a random on-chain order
